@@ -51,6 +51,17 @@ class IndexFields:
             for n in walk_local(ln.node):
                 if isinstance(n, ast.Return) and n.value is not None and is_self_attr(n.value):
                     self.count.add(n.value.attr)
+        if not self.count:
+            # __len__ may compute the size from a container; the counter is then the int-typed field
+            # that IndexResult constructions receive as the universe size
+            for f in p.methods_of("Index"):
+                for n in walk_local(f.node):
+                    if isinstance(n, ast.Call) and isinstance(n.func, ast.Name) and n.func.id == "IndexResult":
+                        cand = [a for a in list(n.args[1:2]) + [k.value for k in n.keywords if k.arg == "index_count"]
+                                if is_self_attr(a)]
+                        for a in cand:
+                            if a.attr in self.all and norm(ci.annotations.get(a.attr)) == "int":
+                                self.count.add(a.attr)
         vg = ci.methods.get("valid")
         if vg is not None:
             for n in walk_local(vg.node):
@@ -659,7 +670,7 @@ def _buffer_sorted_by(ctx, f: Func, buf: str, elt: ast.AST, tgt: ast.AST, stmt: 
     return True, f"projection of `{buf}` sorted by the projected key"
 
 
-@rule("C06.R6", ["C06", "C01"], min_instances=3, design="3.6")
+@rule("C06.R6", ["C06", "C01", "C02", "C03"], min_instances=3, design="3.6")
 def timestamps_stay_sorted(ctx):
     """Every write of the sorted timestamp container keeps it sorted by construction."""
     fl = fields_of(ctx)
@@ -670,15 +681,15 @@ def timestamps_stay_sorted(ctx):
             for n in dw.get(attr, []):
                 if isinstance(n, ast.Assign):
                     ok, why = _sorted_source(ctx, f, n.value, fl, n)
-                    yield Ob("C06.R6", ["C06", "C01"], f"{f.qual} | write {attr} | {norm(n, 100)}", ok, why,
+                    yield Ob("C06.R6", ["C06", "C01", "C02", "C03"], f"{f.qual} | write {attr} | {norm(n, 100)}", ok, why,
                              ctx.prog.loc(n))
                 elif isinstance(n, ast.Call) and n.func.attr == "append":
                     append_funcs.append(f)
-                    yield Ob("C06.R6", ["C06", "C01"], f"{f.qual} | append {attr} | {norm(n, 100)}", True,
+                    yield Ob("C06.R6", ["C06", "C01", "C02", "C03"], f"{f.qual} | append {attr} | {norm(n, 100)}", True,
                              "in-order append; callers must pass the order test (checked at the call sites)",
                              ctx.prog.loc(n), nontrivial=False)
                 else:
-                    yield Ob("C06.R6", ["C06", "C01"], f"{f.qual} | mutate {attr} | {norm(n, 100)}", False,
+                    yield Ob("C06.R6", ["C06", "C01", "C02", "C03"], f"{f.qual} | mutate {attr} | {norm(n, 100)}", False,
                              "in-place mutation of the sorted container that is neither an append nor an "
                              "order-preserving rebuild", ctx.prog.loc(n))
     # the appending operation is reachable from outside only under the order test
@@ -710,7 +721,7 @@ def timestamps_stay_sorted(ctx):
                         why = "guarded by the order test (empty or time >= latest_time)"
                     else:
                         why = f"order guard has the wrong shape: {sorted(want)}"
-                yield Ob("C06.R6", ["C06", "C01"], f"{f.qual} | in-order insert guard | {norm(n, 80)}", ok, why,
+                yield Ob("C06.R6", ["C06", "C01", "C02", "C03"], f"{f.qual} | in-order insert guard | {norm(n, 80)}", ok, why,
                          ctx.prog.loc(n))
         # and the out-of-order branch may only invalidate, exactly when out of order
         for f, n in ext.get("invalidate", []):
@@ -728,7 +739,7 @@ def timestamps_stay_sorted(ctx):
                      ctx.prog.loc(n))
 
 
-@rule("C06.R7", ["C06", "C13", "C01", "C11"], min_instances=1, design="3.6")
+@rule("C06.R7", ["C06", "C13", "C01", "C11", "C07", "C02", "C03"], min_instances=1, design="3.6")
 def valid_flag_set_last(ctx):
     """In a rebuild, the validity flag is set true only after every statement that may raise."""
     fl = fields_of(ctx)
@@ -769,7 +780,7 @@ def valid_flag_set_last(ctx):
 
         setters = [x for x in g.stmt_nodes() if sets_valid(x)]
         if not setters:
-            yield Ob("C06.R7", ["C06", "C13", "C01", "C11"], f"{m.qual} | rebuild sets flag", False,
+            yield Ob("C06.R7", ["C06", "C13", "C01", "C11", "C07", "C02", "C03"], f"{m.qual} | rebuild sets flag", False,
                      "rebuild never marks the index valid", m.loc())
             continue
         bad = []
@@ -787,7 +798,7 @@ def valid_flag_set_last(ctx):
                    f" leaving a valid partially built index")
         else:
             msg = "flag is set true only after every may-raise statement of the rebuild"
-        yield Ob("C06.R7", ["C06", "C13", "C01", "C11"], f"{m.qual} | validity flag set last", ok, msg, m.loc())
+        yield Ob("C06.R7", ["C06", "C13", "C01", "C11", "C07", "C02", "C03"], f"{m.qual} | validity flag set last", ok, msg, m.loc())
 
 
 @rule("C06.R8", ["C06", "C01", "C07"], min_instances=3, design="3.6")
@@ -1009,7 +1020,7 @@ def removal_drops_empty_containers(ctx):
                  "; ".join(bad[:2]) if bad else f"{n_store} store(s) guarded by a non-empty test", h.loc())
 
 
-@rule("C06.R10", ["C06", "C02", "C10", "C01", "C07", "C03"], min_instances=3, design="3.6")
+@rule("C06.R10", ["C06", "C02", "C10", "C01", "C07", "C03", "C08"], min_instances=3, design="3.6")
 def renumbering_is_total(ctx):
     """Index.update maps every stored position of every container through the old->new table, unconditionally."""
     fl = fields_of(ctx)
@@ -1064,5 +1075,5 @@ def renumbering_is_total(ctx):
                     bad.append(f"`{src.id}` is not bound by an enclosing loop over the container")
             elif not is_self_attr(src):
                 bad.append(f"iterates `{norm(src, 40)}`")
-        yield Ob("C06.R10", ["C06", "C02", "C10", "C01", "C07", "C03"], f"{h.qual} | total renumbering", not bad,
+        yield Ob("C06.R10", ["C06", "C02", "C10", "C01", "C07", "C03", "C08"], f"{h.qual} | total renumbering", not bad,
                  "; ".join(bad[:2]) if bad else f"{len(stores)} unconditional element-wise map(s)", h.loc())
